@@ -88,7 +88,7 @@ def run(ctx):
     capped = sum(1 for e in allev if nontrivial(e) and e["ok"] and e["d"] == e["amount"] - e["min"])
     uncapped = sum(1 for e in allev if nontrivial(e) and e["ok"] and 0 < e["d"] < e["amount"] - e["min"])
     chained = sum(1 for e in allev if not e["reset"])
-    if min(capped, uncapped, chained) == 0:
+    if not ctx.violations and min(capped, uncapped, chained) == 0:
         raise vlib.ToolError("vacuity: capped=%d uncapped=%d chained=%d" % (capped, uncapped, chained))
     ctx.cov["samples"] += [ev[len(ev) // 2], ev[-1], ev2[0]]
     ctx.cov["trusted_base"] += ["TLC", "harness h-model c14 driver and VMarket clock (harness-owned)"]
